@@ -190,7 +190,10 @@ theorem cmpInt_gt (a b : Int) : cmpInt a b = 1 ↔ b < a := by
 theorem toInt64_signExt {k n : Nat} (hk : k = 1 ∨ k = 2 ∨ k = 4 ∨ k = 8) (hn : n < 2 ^ (8 * k)) :
     toInt64 (signExt k n) = if n ≥ 2 ^ (8 * k - 1) then (n : Int) - (2 : Int) ^ (8 * k) else (n : Int) := by
   unfold toInt64 signExt two64
-  rcases hk with rfl | rfl | rfl | rfl <;> simp only [] at hn ⊢ <;> (split <;> split <;> simp_all <;> omega)
+  rcases hk with rfl | rfl | rfl | rfl
+  all_goals
+    simp only [Nat.reducePow, Nat.reduceMul, Nat.reduceSub, Int.reducePow] at hn ⊢
+    split <;> (try split) <;> (try split) <;> omega
 
 theorem readNumeric_nonempty {a : Bytes} {c : NumClass} {v : Nat} (h : readNumeric a = .ok (c, v)) :
     a.isEmpty = false := by
